@@ -124,7 +124,7 @@ class C18(Property):
         "(-inf, 0, quantiles of the found radii, exactly a found radius, huge). Oracle: threshold computed independently "
         "(midpoint, exactly rounded mean via fsum, Otsu by definition over the 256-bin histogram); locate_droplets must equal "
         "locate_droplets_in_mask(data > t) byte for byte; affine invariance byte for byte; the radius filter must return exactly "
-        "the sub-list with radius > rho. Non-trivial = at least one droplet found, cells on both sides of the threshold; distinct = "
+        "the sub-list with radius > rho; with refinement (images with <= 6 candidates) every returned radius exceeds rho - also for a rho between a fitted and a cluster radius - and the result is the ordered sub-list of the unfiltered refined result whose cluster and fitted radii both exceed rho. Non-trivial = at least one droplet found, cells on both sides of the threshold; distinct = "
         "distinct spec hash."
     )
     assumptions = [
@@ -241,6 +241,30 @@ class C18(Property):
         ctx.require(em_bytes(res_f) == exp, "radius-filter", f"minimal_radius={rho}: {len(res_f)} droplets returned, expected the {len(exp)} with radius > rho out of radii {radii}")
         for d in res_f:
             ctx.require(d.radius > rho, "radius-filter:too-small", f"returned radius {d.radius} <= {rho}")
+        # (5) the same with refinement: every returned droplet exceeds the minimal radius, and the filter only removes droplets
+        #     whose radius (before or after the fit) does not exceed it.  Kept cheap: few candidates, moderate grids.
+        if 1 <= len(res_all) <= 6 and data.size <= 800 and spec["grid"]["family"] in ("cart", "cyl", "polar", "spherical"):
+            ref_all = locate_droplets(field, threshold=thr_arg, minimal_radius=-np.inf, refine=True)
+            aligned = len(ref_all) == len(res_all)
+            rhos = [rho]
+            if aligned:
+                for d0, d1 in zip(res_all, ref_all):
+                    if d1.radius < d0.radius:  # a bound between the fitted and the cluster radius
+                        rhos.append(0.5 * (float(d0.radius) + float(d1.radius)))
+                        break
+            for rr in rhos:
+                if not np.isfinite(rr):
+                    continue
+                ctx.cls("refine-filter")
+                got = locate_droplets(field, threshold=thr_arg, minimal_radius=rr, refine=True)
+                for d in got:
+                    ctx.require(d.radius > rr, "refine-filter:too-small", f"refine=True, minimal_radius={rr}: returned radius {d.radius}")
+                gb, ab = em_bytes(got), em_bytes(ref_all)
+                it = iter(ab)
+                ctx.require(all(any(g == x for x in it) for g in gb), "refine-filter:not-a-sublist", f"refine=True, minimal_radius={rr}: result is not an ordered sub-list of the unfiltered refined result")
+                if aligned:
+                    exp_r = [e for e, d0, d1 in zip(ab, res_all, ref_all) if d0.radius > rr and d1.radius > rr]
+                    ctx.require(gb == exp_r, "refine-filter:dropped-or-kept-wrongly", f"refine=True, minimal_radius={rr}: {len(gb)} droplets, expected {len(exp_r)} (cluster radii {[float(d.radius) for d in res_all]}, fitted {[float(d.radius) for d in ref_all]})")
 
 
 PROP = C18()
